@@ -801,7 +801,7 @@ def cli_jobs(tier, seed):
         J('SWS', M3 + ['-go', 'CONTACTS', '-water-bias', '-ss', 'C', '-water-bias-eps', 'C:2.1', 'idr:1.0', '-id-regions', '3:8'],
           tags=['go-file']),
         J('UU', M3 + ['-sep'], tags=['noh']), J('UsU', M3 + ['-elastic']),
-        J('SS', M3 + ['-resid', 'input'], per={0: {'start': 9980}, 1: {'start': 9980}}, fmt='gro', tags=['gro-input', 'wrap']),
+        J('SS', M3 + ['-resid', 'input'], per={0: {'start': 9980}, 1: {'start': 30000}}, fmt='gro', tags=['gro-input', 'wrap']),
     ]
     # seeded sample of the product: input kinds x option sets
     rng = random.Random(seed * 7919 + 3)
@@ -810,7 +810,7 @@ def cli_jobs(tier, seed):
                ['-elastic'], ['-elastic', '-eunit', 'all'], ['-elastic', '-eunit', 'chain'], ['-go', 'CONTACTS'],
                ['-water-bias', '-ss', 'C', '-water-bias-eps', 'C:2.1'], ['-resid', 'input'], ['-ignh'], ['-sep', '-resid', 'input'],
                ['-go', 'CONTACTS', '-name', 'gomol', '-resid', 'input'], ['-p', 'backbone', '-sep'], ['-scfix', '-nt']]
-    for _ in range(110):
+    for _ in range(118):
         codes = rng.choice(inputs)
         opts = list(rng.choice(optsets))
         n = len(codes)
@@ -841,7 +841,15 @@ def cli_jobs(tier, seed):
                 per[i] = {'start': rng.choice([-5, -1, 0, 3])}
         common = {'noh': True} if rng.random() < 0.15 else None
         x = 'cg.gro' if rng.random() < 0.2 else 'cg.pdb'
+        if '-water-bias' in opts and 'L' in codes.upper():
+            continue                                   # a ligand has no secondary structure: ComputeWaterBias raises KeyError
+                                                       # ('cgsecstruct'), an unvalidated option combination (Martinize!Unvalidated)
+        if '-go' in opts and not any(NRES[c.upper()] >= 20 for c in codes):
+            continue                                   # no chain long enough for a contact: read_go_map refuses an empty map
         jobs.append(J(codes, ff + opts, labels=labels, per=per, common=common, x=x, tags=['sampled', how]))
+    # the write gate is C07's / C08's business: deprecation and missing-feature warnings must not keep the files back here
+    for job in jobs[len(quick):]:
+        job['options'] += ['-maxwarn', '100']
     return jobs
 
 
@@ -999,6 +1007,11 @@ CLI_MUST['thorough'] = CLI_MUST['quick']
 def _cli_worker(args):
     """Runs in a freshly forked process: one real run; the event is parked in a file (the parent keeps only the path)."""
     job, path = args
+    try:
+        import resource       # a run-away run must fail here (MemoryError), not take the machine (and the pool) down
+        resource.setrlimit(resource.RLIMIT_AS, (12 << 30, 12 << 30))
+    except Exception:      # noqa
+        pass
     try:
         e = run_cli_job(job)
     except Exception as exc:      # noqa
